@@ -347,6 +347,7 @@ class ServerHarness(h_lib.LibHarness):
             url = None
             pos = natives._lsp_position_new(ex, None, [0, 0], None)
         new_name = ('n', 'b', 'a')[ctx.choose(3)]
+        ctx.rename = {'link': url, 'new_name': new_name, 'line': pos.get('line'), 'character': pos.get('character')}
         ctx.rename_target_exists = bool(url) and not is_external(url) and resolve(url, ukey) in set(specs) if ukey else False
         p = lsp(prog, 'RenameParams', text_document_position=lsp(prog, 'TextDocumentPositionParams', text_document=tdi, position=pos), new_name=new_name)
         r = ex.call('Server::handle_rename', [sref, p])
@@ -363,7 +364,6 @@ class ServerHarness(h_lib.LibHarness):
             ctx.law('C08.no-edit-without-a-link-under-the-cursor', opt.vi == 0, info)
             return
         old = resolve(url, ukey)
-        ctx.rename = {'link': url, 'new_name': new_name, 'line': l, 'character': c0 + 1}
         if old not in notes:
             ctx.law('C08.no-edit-for-a-link-to-a-missing-note', opt.vi == 0, dict(info, old=old))
             return
@@ -548,6 +548,13 @@ class ServerHarness(h_lib.LibHarness):
             return ok is True
         if req == 'rename' and d.get('rename') and isinstance(last, dict):
             rn = d['rename']
+            if v['law'] == 'C08.rename-onto-an-existing-note-is-refused':
+                v['replay_verdict'] = 'native rename onto %s: %s' % (rn['new_name'], str(last)[:120])
+                return 'err' not in last
+            if v['law'] == 'C08.rename-answers':
+                return 'err' in last
+            if v['law'] == 'C08.no-edit-without-a-link-under-the-cursor':
+                return last.get('ok') is not None
             if 'err' in last:
                 failed.append('refused')
             elif last.get('ok') is None:
